@@ -96,4 +96,155 @@ mod verif_k10 {
         }
         std::mem::forget(md);
     }
+
+    //@ harness k10_u16_path_value_two_bytes property=C10 class=bounded :: deserialize_u16 of from_map's MapDeserializer on every 2-byte ASCII string: accepted iff two digits or a sign '+' and a digit
+    #[kani::proof]
+    #[kani::unwind(6)]
+    #[kani::stub(std::fmt::format, fmt_stub)]
+    fn k10_u16_path_value_two_bytes() {
+        let (b0, b1, s) = two_byte_string();
+        let mut md: MapDeserializer<'_, String> = MapDeserializer::Value(s);
+        let r = <u16 as Deserialize>::deserialize(&mut md);
+        let well_typed = (digit(b0) && digit(b1)) || ((b0 == b'+') && digit(b1));
+        match r {
+            Ok(v) => {
+                assert!(well_typed);
+                if digit(b0) { assert!(v == ((b0 - b'0') * 10 + (b1 - b'0')) as u16); }
+            }
+            Err(_) => assert!(!well_typed),
+        }
+        std::mem::forget(md);
+    }
+
+    //@ harness k10_u32_path_value_two_bytes property=C10 class=bounded :: deserialize_u32 of from_map's MapDeserializer on every 2-byte ASCII string: accepted iff two digits or a sign '+' and a digit
+    #[kani::proof]
+    #[kani::unwind(6)]
+    #[kani::stub(std::fmt::format, fmt_stub)]
+    fn k10_u32_path_value_two_bytes() {
+        let (b0, b1, s) = two_byte_string();
+        let mut md: MapDeserializer<'_, String> = MapDeserializer::Value(s);
+        let r = <u32 as Deserialize>::deserialize(&mut md);
+        let well_typed = (digit(b0) && digit(b1)) || ((b0 == b'+') && digit(b1));
+        match r {
+            Ok(v) => {
+                assert!(well_typed);
+                if digit(b0) { assert!(v == ((b0 - b'0') * 10 + (b1 - b'0')) as u32); }
+            }
+            Err(_) => assert!(!well_typed),
+        }
+        std::mem::forget(md);
+    }
+
+    //@ harness k10_u64_path_value_two_bytes property=C10 class=bounded :: deserialize_u64 of from_map's MapDeserializer on every 2-byte ASCII string: accepted iff two digits or a sign '+' and a digit
+    #[kani::proof]
+    #[kani::unwind(6)]
+    #[kani::stub(std::fmt::format, fmt_stub)]
+    fn k10_u64_path_value_two_bytes() {
+        let (b0, b1, s) = two_byte_string();
+        let mut md: MapDeserializer<'_, String> = MapDeserializer::Value(s);
+        let r = <u64 as Deserialize>::deserialize(&mut md);
+        let well_typed = (digit(b0) && digit(b1)) || ((b0 == b'+') && digit(b1));
+        match r {
+            Ok(v) => {
+                assert!(well_typed);
+                if digit(b0) { assert!(v == ((b0 - b'0') * 10 + (b1 - b'0')) as u64); }
+            }
+            Err(_) => assert!(!well_typed),
+        }
+        std::mem::forget(md);
+    }
+
+    //@ harness k10_i16_path_value_two_bytes property=C10 class=bounded :: deserialize_i16 of from_map's MapDeserializer on every 2-byte ASCII string: accepted iff two digits or a sign '+'/'-' and a digit
+    #[kani::proof]
+    #[kani::unwind(6)]
+    #[kani::stub(std::fmt::format, fmt_stub)]
+    fn k10_i16_path_value_two_bytes() {
+        let (b0, b1, s) = two_byte_string();
+        let mut md: MapDeserializer<'_, String> = MapDeserializer::Value(s);
+        let r = <i16 as Deserialize>::deserialize(&mut md);
+        let well_typed = (digit(b0) && digit(b1)) || ((b0 == b'+' || b0 == b'-') && digit(b1));
+        match r {
+            Ok(v) => {
+                assert!(well_typed);
+                if digit(b0) { assert!(v == ((b0 - b'0') * 10 + (b1 - b'0')) as i16); }
+            }
+            Err(_) => assert!(!well_typed),
+        }
+        std::mem::forget(md);
+    }
+
+    //@ harness k10_i32_path_value_two_bytes property=C10 class=bounded :: deserialize_i32 of from_map's MapDeserializer on every 2-byte ASCII string: accepted iff two digits or a sign '+'/'-' and a digit
+    #[kani::proof]
+    #[kani::unwind(6)]
+    #[kani::stub(std::fmt::format, fmt_stub)]
+    fn k10_i32_path_value_two_bytes() {
+        let (b0, b1, s) = two_byte_string();
+        let mut md: MapDeserializer<'_, String> = MapDeserializer::Value(s);
+        let r = <i32 as Deserialize>::deserialize(&mut md);
+        let well_typed = (digit(b0) && digit(b1)) || ((b0 == b'+' || b0 == b'-') && digit(b1));
+        match r {
+            Ok(v) => {
+                assert!(well_typed);
+                if digit(b0) { assert!(v == ((b0 - b'0') * 10 + (b1 - b'0')) as i32); }
+            }
+            Err(_) => assert!(!well_typed),
+        }
+        std::mem::forget(md);
+    }
+
+    //@ harness k10_i64_path_value_two_bytes property=C10 class=bounded :: deserialize_i64 of from_map's MapDeserializer on every 2-byte ASCII string: accepted iff two digits or a sign '+'/'-' and a digit
+    #[kani::proof]
+    #[kani::unwind(6)]
+    #[kani::stub(std::fmt::format, fmt_stub)]
+    fn k10_i64_path_value_two_bytes() {
+        let (b0, b1, s) = two_byte_string();
+        let mut md: MapDeserializer<'_, String> = MapDeserializer::Value(s);
+        let r = <i64 as Deserialize>::deserialize(&mut md);
+        let well_typed = (digit(b0) && digit(b1)) || ((b0 == b'+' || b0 == b'-') && digit(b1));
+        match r {
+            Ok(v) => {
+                assert!(well_typed);
+                if digit(b0) { assert!(v == ((b0 - b'0') * 10 + (b1 - b'0')) as i64); }
+            }
+            Err(_) => assert!(!well_typed),
+        }
+        std::mem::forget(md);
+    }
+
+    //@ harness k10_char_path_value property=C10 class=bounded :: deserialize_char: a 1-byte ASCII string is accepted as that character, every 2-byte ASCII string is refused
+    #[kani::proof]
+    #[kani::unwind(6)]
+    #[kani::stub(std::fmt::format, fmt_stub)]
+    fn k10_char_path_value() {
+        let (b0, _b1, s2) = two_byte_string();
+        let mut md2: MapDeserializer<'_, String> = MapDeserializer::Value(s2);
+        assert!(<char as Deserialize>::deserialize(&mut md2).is_err());
+        let s1 = unsafe { String::from_utf8_unchecked(vec![b0]) };
+        let mut md1: MapDeserializer<'_, String> = MapDeserializer::Value(s1);
+        match <char as Deserialize>::deserialize(&mut md1) { Ok(c) => assert!(c as u32 == b0 as u32), Err(_) => assert!(false) }
+        std::mem::forget(md1); std::mem::forget(md2);
+    }
+
+    //@ harness k10_u16_path_value_five_bytes property=C10 class=bounded :: deserialize_u16 on every 5-byte ASCII string: accepted iff five digits with value <= 65535 or '+' and four digits -- so 65536..99999 ("out-of-range number") is refused
+    #[kani::proof]
+    #[kani::unwind(10)]
+    #[kani::stub(std::fmt::format, fmt_stub)]
+    fn k10_u16_path_value_five_bytes() {
+        let b: [u8; 5] = kani::any();
+        kani::assume(b[0] < 128 && b[1] < 128 && b[2] < 128 && b[3] < 128 && b[4] < 128);
+        let s = unsafe { String::from_utf8_unchecked(vec![b[0], b[1], b[2], b[3], b[4]]) };
+        let mut md: MapDeserializer<'_, String> = MapDeserializer::Value(s);
+        let r = <u16 as Deserialize>::deserialize(&mut md);
+        let tail4 = digit(b[1]) && digit(b[2]) && digit(b[3]) && digit(b[4]);
+        let five = digit(b[0]) && tail4;
+        let val: u32 = if five {
+            (b[0] - b'0') as u32 * 10000 + (b[1] - b'0') as u32 * 1000 + (b[2] - b'0') as u32 * 100 + (b[3] - b'0') as u32 * 10 + (b[4] - b'0') as u32
+        } else { 0 };
+        let well_typed = (five && val <= 65535) || (b[0] == b'+' && tail4);
+        match r {
+            Ok(v) => { assert!(well_typed); if five { assert!(v as u32 == val); } }
+            Err(_) => assert!(!well_typed),
+        }
+        std::mem::forget(md);
+    }
 }
